@@ -108,7 +108,7 @@ class Program {
   Solver* GetSolver();
   void InvalidateSolver();
 
-  bool is_reachable(const CFGNode* src, const CFGNode* dst);
+  bool is_reachable(const CFGNode* src, const CFGNode* dst) const;
 
   Metrics CalculateMetrics();
 
